@@ -69,7 +69,8 @@ Yield(e) ==
                 x == exp[k]
             IN  /\ Clause(e, "c05_subset", S = x.subset)
                 /\ Clause(e, "c05_ran",    e.ok = x.ok)
-                /\ Clause(e, "c05_flags",  (e.ok /\ x.ok) => e.flags = x.flags)
+                /\ Clause(e, "c05_flags",  (e.ok /\ x.ok) => /\ Len(e.flags) = Len(x.adm)
+                                                                /\ \A i \in 1..Len(x.adm) : e.flags[i] \in x.adm[i])
                 /\ Clause(e, "c05_arrays", /\ e.data = Pick(table.data[e.stream], S)
                                            /\ e.t = Pick(TimeOf(table), S)
                                            /\ e.z = Pick(table.z, S)
@@ -99,21 +100,28 @@ CollectE(e) ==
         eL  == FoldL(<<>>, src, ord, n)
         eD  == FoldD(<<>>, src, ord, n)
         full == Len(ord) = Len(src) /\ \A k \in 1..Len(src) : \E j \in 1..Len(ord) : ord[j] = k
+        \* a direct result is compared with the spec's own flags: only where the rules fix every one of them
+        det == ~e.direct \/ Determined(src)
     IN
     /\ Clause(e, "c06_total", e.exc = "")
     /\ Clause(e, "c06_one_per_key", e.exc = "" => OneEach(e.accL) /\ OneEach(e.accD))
     /\ Clause(e, "c06_list", (e.exc = "" /\ ~e.direct) => AccFn(e.accL) = eL)
-    /\ Clause(e, "c06_dict", e.exc = "" => AccFn(e.accD) = eD)
+    /\ Clause(e, "c06_dict", (e.exc = "" /\ det) => AccFn(e.accD) = eD)
+    \* C05 for the single-stream wrapper, whose run and collection are one call: what it returns is what the direct calls give
+    /\ Clause(e, "c05_direct", (e.exc = "" /\ e.direct /\ det) => AccFn(e.accD) = eD)
     /\ Clause(e, "c06_axes", (e.exc = "" /\ ~e.direct) => \A j \in 1..Len(e.accL) : AxesOK(e.accL[j], ord))
     \* C06 order independence / coverage: a complete collection equals the order-free statement
-    /\ Clause(e, "c06_cover", (e.exc = "" /\ full /\ DisjointYields(src)) =>
+    /\ Clause(e, "c06_cover", (e.exc = "" /\ full /\ det /\ DisjointYields(src)) =>
                                   /\ e.direct \/ AccFn(e.accL) = CoverAcc(src, n, MASKED)
                                   /\ AccFn(e.accD) = CoverAcc(src, n, UNKNOWN))
     \* C18: the run without the entries that cannot run gives the same accumulators
     /\ Clause(e, "c18_same", (e.exc = "" /\ full /\ e.rel.kind = "healthy_of") =>
                                   (e.direct \/ AccFn(e.accL) = bacc.L) /\ AccFn(e.accD) = bacc.D)
-    /\ Clause(e, "c18_spec", (e.exc = "" /\ full /\ DisjointYields(src)) =>
+    /\ Clause(e, "c18_spec", (e.exc = "" /\ full /\ DisjointYields(src) /\ Determined(Yields(table, HealthyOnly(table, config)))) =>
                                   AccFn(e.accD) = CoverAcc(Yields(table, HealthyOnly(table, config)), n, UNKNOWN))
+    \* the mapping names exactly the streams that have a result (an entry that cannot run leaves nothing, not even an
+    \* empty slot for its stream)
+    /\ Clause(e, "c18_keys", (e.exc = "" /\ ~e.direct) => { e.dkeys[j] : j \in 1..Len(e.dkeys) } = { k[1] : k \in DOMAIN eD })
     /\ order' = ord /\ accL' = eL /\ accD' = eD /\ pc' = "done"
     /\ IF e.exc = "" /\ full /\ e.rel.kind = "base" /\ e.first
        THEN bacc' = [bacc EXCEPT !.L = AccFn(e.accL), !.D = AccFn(e.accD)]
